@@ -223,3 +223,40 @@ func lz4Diag(comp compKind, enc []byte) string {
 	}
 	return fmt.Sprintf(" [lz4 diag: declared uncompressed length %d, compressed %d, reference decoder: %d bytes, err=%v]", declared, len(body)-4, len(out), err)
 }
+
+
+// diffFrames is canon.Diff on frames with one more wire-unrepresentable distinction removed: Body.TracingId of a
+// request frame ("Only valid for response frames, ignored otherwise").
+func diffFrames(a, b *frame.Frame) string {
+	na, nb := a, b
+	if a != nil && a.Header != nil && !a.Header.IsResponse && a.Body != nil && a.Body.TracingId != nil {
+		na = &frame.Frame{Header: a.Header, Body: &frame.Body{CustomPayload: a.Body.CustomPayload, Warnings: a.Body.Warnings, Message: a.Body.Message}}
+	}
+	if b != nil && b.Header != nil && !b.Header.IsResponse && b.Body != nil && b.Body.TracingId != nil {
+		nb = &frame.Frame{Header: b.Header, Body: &frame.Body{CustomPayload: b.Body.CustomPayload, Warnings: b.Body.Warnings, Message: b.Body.Message}}
+	}
+	return canon.Diff(na, nb)
+}
+
+// chunkReader returns at most the next chunk size per Read call (sizes cycle), like a network connection does.
+type chunkReader struct {
+	r      io.Reader
+	chunks []int
+	i      int
+}
+
+func (c *chunkReader) Read(p []byte) (int, error) {
+	n := c.chunks[c.i%len(c.chunks)]
+	c.i++
+	if n > len(p) {
+		n = len(p)
+	}
+	if n == 0 && len(p) > 0 {
+		n = 1
+	}
+	return c.r.Read(p[:n])
+}
+
+func drawChunks(t *rapid.T) []int {
+	return rapid.SliceOfN(rapid.SampledFrom([]int{1, 2, 3, 5, 8, 13, 64, 1000, 65536}), 1, 5).Draw(t, "chunks")
+}
